@@ -154,7 +154,7 @@ fn c08_camera_viewport() {
         _ => cam.viewport(pt2(l, t).to_vec()..pt2(r, b).to_vec()),
     };
     // model: intersection with the frame
-    let (ml, mt) = (l.min(w), t.min(h));
+    let (ml, mt) = match form { 1 => (l.min(w), 0), _ => (l.min(w), t.min(h)) };
     let (mr, mb) = match form { 1 => (w, b.min(h)), _ => (r.min(w), b.min(h)) };
     let (vw, vh) = (mr.saturating_sub(ml), mb.saturating_sub(mt));
     assert!(cam.dims == (vw, vh));
